@@ -715,7 +715,7 @@ From Coq Require Import ZArith String List Bool.
 From J2O Require Import PyLib Dtype.
 From J2OGen Require Import LibTables.
 Import ListNotations.
-Open Scope Z_scope.
+Local Open Scope Z_scope.
 
 """
 
